@@ -66,6 +66,8 @@ namespace vf::vt {
         bool woken_not_run = false;    // made runnable by a wake-up but not scheduled since (pika: 'pending')
         bool aborted = false;
         bool timeout_fired = false;
+        bool last_wait_timed_out = false;    // the thread's last blocking operation ended by its deadline (and it has not blocked since)
+        bool stale_token = false;            // a deferred wake-up arrived after that: it belongs to the wait that already timed out
         bool finite_deadline = false;
         std::uint64_t spun_at = 0;    // progress counter value when this thread last spun (0: not spinning)
         bool spinning = false;
@@ -102,6 +104,21 @@ namespace vf::vt {
         bool timeouts_only_when_idle = false;    // fire a deadline only when no thread can run (excludes timeout-vs-notify races)
         long long excluded_timeout_choices = 0;
         long long tokens_consumed = 0;    // wake-ups that arrived before the target's suspension completed
+        // known finding F12 (a stale deferred wake-up is delivered to the thread's NEXT timed wait, which reports it as a
+        // timeout): the engine sees the precondition exactly.  With discard_on_stale_timed such a run is not judged at all
+        // (DISCARD, counted as excluded) -- timeouts may then race notifications freely, every other oracle stays on.
+        long long stale_tokens_into_timed_wait = 0;
+        bool discard_on_stale_timed = false;
+        bool must_discard() const { return discard_on_stale_timed && stale_tokens_into_timed_wait > 0; }
+        [[noreturn]] void write_discard()
+        {
+            Outcome o;
+            o.kind = Outcome::DISCARD;
+            o.counters["avoided"] = 1;
+            std::string str = o.serialize();
+            if (child_fd() >= 0) { ssize_t r = write(child_fd(), str.data(), str.size()); (void) r; }
+            _exit(0);
+        }
         std::function<void(int site, void const* obj, std::uint64_t a, std::uint64_t b)> on_site;
 
         int add(std::function<void()> f)
@@ -132,6 +149,7 @@ namespace vf::vt {
         }
         [[noreturn]] void report_deadlock(bool livelock)
         {
+            if (must_discard()) write_discard();
             std::string d = diagnose ? diagnose() : std::string();
             Outcome o = Outcome::fail(livelock ? "vt_livelock" : "vt_deadlock",
                 std::string(livelock ? "all runnable logical threads spin without any progress" : "all logical threads are blocked") +
@@ -241,6 +259,7 @@ namespace vf::vt {
                     // the scheduler decided that this sleeper's deadline passes now
                     n.st = T_RUNNABLE;
                     n.timeout_fired = true;
+                    n.last_wait_timed_out = true;
                     ++timeouts_fired;
                     ++progress;
                 }
@@ -310,6 +329,8 @@ namespace vf::vt {
         LThread& me = *s->ts[static_cast<std::size_t>(id)];
         ++s->progress;
         if (vt_trace()) std::fprintf(stderr, "  [vt] T%d suspend (tokens=%d)\n", id, me.pending_resume);
+        me.last_wait_timed_out = false;
+        me.stale_token = false;    // (an untimed wait treats a stale wake-up as a spurious one)
         if (me.pending_resume > 0)
         {
             // the wake-up arrived before the suspension completed: consume it (same meaning as the
@@ -347,7 +368,11 @@ namespace vf::vt {
                 // target already woken and waiting to be scheduled (pika: state pending): a second
                 // set_thread_state(pending) is a no-op there
             }
-            else if (tgt.st != T_DONE) ++tgt.pending_resume;    // target still active: the wake-up is deferred to its next suspension
+            else if (tgt.st != T_DONE)
+            {
+                ++tgt.pending_resume;    // target still active: the wake-up is deferred to its next suspension
+                if (tgt.last_wait_timed_out) tgt.stale_token = true;
+            }
         }
         s->decision(false);
     }
@@ -369,7 +394,15 @@ namespace vf::vt {
         LThread& me = *s->ts[static_cast<std::size_t>(id)];
         ++s->progress;
         if (vt_trace()) std::fprintf(stderr, "  [vt] T%d sleep_until (tokens=%d)\n", id, me.pending_resume);
-        if (me.pending_resume > 0) { --me.pending_resume; ++s->tokens_consumed; }
+        bool stale = me.stale_token;
+        me.stale_token = false;
+        me.last_wait_timed_out = false;
+        if (me.pending_resume > 0)
+        {
+            --me.pending_resume;
+            ++s->tokens_consumed;
+            if (stale) ++s->stale_tokens_into_timed_wait;
+        }
         else
         {
             me.st = T_SLEEPING;
@@ -380,7 +413,7 @@ namespace vf::vt {
         }
         int next = s->choose(id);
         if (next != id) s->switch_to(l, id, next, true);
-        else if (me.st == T_SLEEPING) { me.st = T_RUNNABLE; me.timeout_fired = true; ++s->timeouts_fired; }
+        else if (me.st == T_SLEEPING) { me.st = T_RUNNABLE; me.timeout_fired = true; me.last_wait_timed_out = true; ++s->timeouts_fired; }
         me.woken_not_run = false;
         me.where.clear();
     }
